@@ -233,7 +233,9 @@ func (c *Ctx) Finish(verifDir string, seed int64, start time.Time, explanation s
 		"notes":               c.Notes,
 	}
 	for k, v := range c.Extra {
-		cov[k] = v
+		if !strings.HasPrefix(k, "__") {
+			cov[k] = v
+		}
 	}
 	ev := map[string]any{
 		"property_id": c.Prop,
